@@ -86,53 +86,39 @@ Lemma tget_none_ge (T : table) i : length T <= i -> tget T i = None.
 Proof. intros H. unfold tget. apply nth_error_None in H. rewrite H. reflexivity. Qed.
 
 (* ---------------------------------------------------------------- one redirection, analysed *)
-(* the state just before the source is looked at: destination slot made valid,
-   whatever the form owned there released *)
-Definition pre_T (x : fstate) (d : nat) : table := grow None (fs_T x) d.
+Lemma exec_redir_ok_inv :
+  forall fl objs x r x',
+    exec_redir fl objs x r = ROk x' ->
+    exists d s1 F2 df p own s2,
+      eval_dst r = Some (Z.of_nat d)
+      /\ release fl x d = (s1, F2, df)
+      /\ eval_src fl objs (grow None (fs_T x) d) s1 r = SPort p own s2
+      /\ x' = install (grow None (fs_T x) d) F2 df d p own s2.
+Proof.
+  intros fl objs x r x' H. unfold exec_redir in H.
+  destruct (eval_dst r) as [dz|] eqn:Hd; [|discriminate].
+  destruct (dz <? 0)%Z eqn:Hneg; [destruct fl; discriminate|].
+  destruct (release fl x (Z.to_nat dz)) as [[s1 F2] df] eqn:E.
+  destruct (eval_src fl objs (grow None (fs_T x) (Z.to_nat dz)) s1 r) as [p own s2| |] eqn:Es;
+    try discriminate.
+  inversion H; subst x'. exists (Z.to_nat dz), s1, F2, df, p, own, s2.
+  rewrite Z2Nat.id by lia. auto.
+Qed.
 
 Lemma exec_redir_table :
-  forall objs x r x' d,
-    eval_dst r = Some (Z.of_nat d) ->
-    exec_redir Impl objs x r = ROk x' ->
-    length (fs_T x') = Nat.max (length (fs_T x)) (S d)
+  forall fl objs x r x',
+    exec_redir fl objs x r = ROk x' ->
+    exists d, eval_dst r = Some (Z.of_nat d)
+    /\ length (fs_T x') = Nat.max (length (fs_T x)) (S d)
     /\ (forall i, i <> d -> tget (fs_T x') i = tget (fs_T x) i)
     /\ exists p, tget (fs_T x') d = Some p.
 Proof.
-  intros objs x r x' d Hd H. unfold exec_redir in H. rewrite Hd in H.
-  assert (Hneg : (Z.of_nat d <? 0)%Z = false) by lia. rewrite Hneg in H.
-  rewrite Nat2Z.id in H.
-  set (T1 := grow None (fs_T x) d) in *.
-  assert (HL : d < length T1) by apply length_grow.
-  assert (HLe : length T1 = Nat.max (length (fs_T x)) (S d)) by apply length_grow_eq.
-  destruct (match tget T1 d with
-            | Some p => (close_fop (fs_st x) (nth d (grow fop0 (fs_fops x) d) fop0) p,
-                         list_upd (grow fop0 (fs_fops x) d) d fop0, fs_defer x)
-            | None => (fs_st x, grow fop0 (fs_fops x) d, fs_defer x) end) as [[s1 F2] df] eqn:E.
-  assert (K : forall p own s', ROk (mkFs (list_upd T1 d (Some p))
-              (if own then list_upd F2 d (mkFop true (fo_chan (nth d F2 fop0))) else F2) s' df) = ROk x' ->
-            length (fs_T x') = Nat.max (length (fs_T x)) (S d)
-            /\ (forall i, i <> d -> tget (fs_T x') i = tget (fs_T x) i)
-            /\ exists p, tget (fs_T x') d = Some p).
-  { intros p own s' Heq. inversion Heq; subst x'; simpl.
-    split; [rewrite length_list_upd; auto|]. split.
-    - intros i Hi. rewrite tget_upd_other; auto. apply tget_grow.
-    - exists p. apply tget_upd_same; auto. }
-  destruct (r_src r) as [pth|f| |k|].
-  - destruct (open_file s1 pth (makeFlag (r_mode r))) as [[i s2]|]; [eapply K; eauto|discriminate].
-  - destruct f as [z|n|]; try discriminate.
-    + destruct (z <? 0)%Z.
-      * destruct (z =? -1)%Z; [eapply K; eauto|discriminate].
-      * destruct (tget T1 (Z.to_nat z)); [eapply K; eauto|discriminate].
-    + destruct (Z.of_nat n <? 0)%Z.
-      * destruct (Z.of_nat n =? -1)%Z; [eapply K; eauto|discriminate].
-      * destruct (tget T1 (Z.to_nat (Z.of_nat n))); [eapply K; eauto|discriminate].
-  - eapply K; eauto.
-  - destruct (nth_error objs k) as [[h|rd wr]|]; try discriminate.
-    + eapply K; eauto.
-    + destruct (r_mode r); try discriminate.
-      * destruct rd; [eapply K; eauto|discriminate].
-      * destruct wr; [eapply K; eauto|discriminate].
-  - discriminate.
+  intros fl objs x r x' H.
+  destruct (exec_redir_ok_inv _ _ _ _ _ H) as (d & s1 & F2 & df & p & own & s2 & Hd & _ & _ & ->).
+  exists d. split; auto. unfold install; simpl. split; [|split].
+  - rewrite length_list_upd. apply length_grow_eq.
+  - intros i Hi. rewrite tget_upd_other; auto. apply tget_grow.
+  - exists p. apply tget_upd_same. apply length_grow.
 Qed.
 
 (* n>&m : afterwards both fds hold the very port m held before *)
@@ -141,23 +127,20 @@ Lemma dup_shares_port :
     exec_redir Impl objs x (mkRedir (Some (FdNum (Z.of_nat n))) md (SFd (FdNum (Z.of_nat m)))) = ROk x' ->
     exists p, tget (fs_T x) m = Some p /\ tget (fs_T x') n = Some p /\ tget (fs_T x') m = Some p.
 Proof.
-  intros objs x md n m x' H. unfold exec_redir in H. cbn [eval_dst r_dst r_src r_mode] in H.
-  assert (Hneg : (Z.of_nat n <? 0)%Z = false) by lia. rewrite Hneg in H.
-  assert (Hneg2 : (Z.of_nat m <? 0)%Z = false) by lia. rewrite Hneg2 in H.
-  rewrite !Nat2Z.id in H.
-  set (T1 := grow None (fs_T x) n) in *.
-  assert (HL : n < length T1) by apply length_grow.
-  destruct (match tget T1 n with
-            | Some p => (close_fop (fs_st x) (nth n (grow fop0 (fs_fops x) n) fop0) p,
-                         list_upd (grow fop0 (fs_fops x) n) n fop0, fs_defer x)
-            | None => (fs_st x, grow fop0 (fs_fops x) n, fs_defer x) end) as [[s1 F2] df] eqn:E.
-  destruct (tget T1 m) as [p|] eqn:Em; [|discriminate].
-  inversion H; subst x'; simpl. exists p.
-  unfold T1 in Em. rewrite tget_grow in Em. split; auto. split.
+  intros objs x md n m x' H.
+  destruct (exec_redir_ok_inv _ _ _ _ _ H) as (d & s1 & F2 & df & p & own & s2 & Hd & _ & Hs & ->).
+  cbn [eval_dst r_dst] in Hd. assert (d = n) by (inversion Hd; lia). subst d.
+  unfold eval_src in Hs. cbn [r_src] in Hs.
+  assert (Hneg2 : (Z.of_nat m <? 0)%Z = false) by lia. rewrite Hneg2 in Hs.
+  rewrite Nat2Z.id, tget_grow in Hs.
+  destruct (tget (fs_T x) m) as [q|] eqn:Em; [|discriminate].
+  inversion Hs; subst p own s2. exists q. split; auto. unfold install; simpl.
+  assert (HL : n < length (grow None (fs_T x) n)) by apply length_grow.
+  split.
   - apply tget_upd_same; auto.
   - destruct (Nat.eq_dec n m) as [->|Hne].
     + apply tget_upd_same; auto.
-    + rewrite tget_upd_other; auto. unfold T1. rewrite tget_grow. auto.
+    + rewrite tget_upd_other; auto. rewrite tget_grow. auto.
 Qed.
 
 (* n>&- : port n becomes the closed port; value writes to it raise, byte writes fail *)
@@ -167,14 +150,11 @@ Lemma close_installs_closed_port :
     exec_redir Impl objs x (mkRedir dst md SClose) = ROk x' ->
     tget (fs_T x') n = Some closed_port.
 Proof.
-  intros objs x dst md n x' Hd H. unfold exec_redir in H. rewrite Hd in H.
-  assert (Hneg : (Z.of_nat n <? 0)%Z = false) by lia. rewrite Hneg in H.
-  rewrite Nat2Z.id in H. cbn [r_src] in H.
-  destruct (match tget (grow None (fs_T x) n) n with
-            | Some p => (close_fop (fs_st x) (nth n (grow fop0 (fs_fops x) n) fop0) p,
-                         list_upd (grow fop0 (fs_fops x) n) n fop0, fs_defer x)
-            | None => (fs_st x, grow fop0 (fs_fops x) n, fs_defer x) end) as [[s1 F2] df].
-  inversion H; subst x'; simpl. apply tget_upd_same. apply length_grow.
+  intros objs x dst md n x' Hd0 H.
+  destruct (exec_redir_ok_inv _ _ _ _ _ H) as (d & s1 & F2 & df & p & own & s2 & Hd & _ & Hs & ->).
+  rewrite Hd0 in Hd. assert (d = n) by (inversion Hd; lia). subst d.
+  unfold eval_src in Hs. cbn [r_src] in Hs. inversion Hs; subst.
+  unfold install; simpl. apply tget_upd_same. apply length_grow.
 Qed.
 
 Lemma closed_port_writes :
@@ -190,11 +170,12 @@ Lemma invalid_src_fd_raises :
     tget (fs_T x) v = None ->
     exists x', exec_redir fl objs x r = RExc EInvalidFD x'.
 Proof.
-  intros fl objs x r d v Hd Hs Hn. unfold exec_redir. rewrite Hd, Hs.
+  intros fl objs x r d v Hd Hs Hn. unfold exec_redir. rewrite Hd.
   assert (Hneg : (Z.of_nat d <? 0)%Z = false) by lia. rewrite Hneg.
+  destruct (release fl x (Z.to_nat (Z.of_nat d))) as [[s1 F2] df].
+  unfold eval_src. rewrite Hs.
   assert (Hneg2 : (Z.of_nat v <? 0)%Z = false) by lia. rewrite Hneg2.
-  rewrite !Nat2Z.id. rewrite tget_grow, Hn.
-  destruct (tget (grow None (fs_T x) d) d); destruct fl; eexists; reflexivity.
+  rewrite !Nat2Z.id. rewrite tget_grow, Hn. eexists; reflexivity.
 Qed.
 
 (* the reference semantics: negative fds raise as well *)
@@ -206,9 +187,22 @@ Lemma spec_negative_fd_raises :
 Proof.
   intros objs x r [[dz [Hd Hl]]|[dz [z [Hd [Hge [Hs Hl]]]]]]; unfold exec_redir; rewrite Hd.
   - assert (E : (dz <? 0)%Z = true) by lia. rewrite E. eexists; reflexivity.
-  - assert (E : (dz <? 0)%Z = false) by lia. rewrite E. rewrite Hs.
-    assert (E2 : (z <? 0)%Z = true) by lia. rewrite E2.
-    destruct (tget (grow None (fs_T x) (Z.to_nat dz)) (Z.to_nat dz)); eexists; reflexivity.
+  - assert (E : (dz <? 0)%Z = false) by lia. rewrite E.
+    destruct (release Spec x (Z.to_nat dz)) as [[s1 F2] df].
+    unfold eval_src. rewrite Hs.
+    assert (E2 : (z <? 0)%Z = true) by lia. rewrite E2. eexists; reflexivity.
+Qed.
+
+Lemma spec_src_never_crashes : forall objs T s r, eval_src Spec objs T s r <> SCrash.
+Proof.
+  intros objs T s r. unfold eval_src.
+  destruct (r_src r) as [pth|f| |k|]; try discriminate.
+  - destruct (open_file s pth (makeFlag (r_mode r))) as [[i s2]|]; discriminate.
+  - destruct f as [z|n|]; try discriminate.
+    + destruct (z <? 0)%Z; [discriminate|]. destruct (tget _ _); discriminate.
+    + destruct (Z.of_nat n <? 0)%Z; [discriminate|]. destruct (tget _ _); discriminate.
+  - destruct (nth_error objs k) as [[h|rd wr]|]; try discriminate.
+    destruct (r_mode r); try discriminate; [destruct rd|destruct wr]; discriminate.
 Qed.
 
 Lemma spec_redir_never_crashes : forall objs x r, exec_redir Spec objs x r <> RCrash.
@@ -216,15 +210,9 @@ Proof.
   intros objs x r. unfold exec_redir.
   destruct (eval_dst r) as [dz|]; [|discriminate].
   destruct (dz <? 0)%Z; [discriminate|].
-  destruct (match tget (grow None (fs_T x) (Z.to_nat dz)) (Z.to_nat dz) with
-            | Some p => _ | None => _ end) as [[s1 F2] df].
-  destruct (r_src r) as [pth|f| |k|]; try discriminate.
-  - destruct (open_file s1 pth (makeFlag (r_mode r))) as [[i s2]|]; discriminate.
-  - destruct f as [z|n|]; try discriminate.
-    + destruct (z <? 0)%Z; [discriminate|]. destruct (tget _ _); discriminate.
-    + destruct (Z.of_nat n <? 0)%Z; [discriminate|]. destruct (tget _ _); discriminate.
-  - destruct (nth_error objs k) as [[h|rd wr]|]; try discriminate.
-    destruct (r_mode r); try discriminate; [destruct rd|destruct wr]; discriminate.
+  destruct (release Spec x (Z.to_nat dz)) as [[s1 F2] df].
+  destruct (eval_src Spec objs _ s1 r) eqn:E; try discriminate.
+  exfalso. eapply spec_src_never_crashes; eauto.
 Qed.
 
 (* the witnesses of the defects (faithful model) *)
@@ -244,13 +232,22 @@ Lemma minus_one_src_fd_closes :
              /\ tget (fs_T x') 1 = Some closed_port.
 Proof. eexists; split; reflexivity. Qed.
 
+Lemma negative_dst_refuted :
+  exists objs x r, eval_dst r = Some (-1)%Z /\ exec_redir Impl objs x r = RCrash.
+Proof. exists [], x0, (mkRedir (Some (FdNum (-1))) MWrite (SFile 0)). split; reflexivity. Qed.
+
+Lemma negative_src_refuted :
+  exists objs x r, r_src r = SFd (FdNum (-2)) /\ exec_redir Impl objs x r = RCrash.
+Proof. exists [], x0, (mkRedir None MWrite (SFd (FdNum (-2)))). split; reflexivity. Qed.
+
 (* growAccess allocates dst+1 slots whatever dst is *)
 Lemma huge_fd_allocates :
   forall objs x r d x',
     eval_dst r = Some (Z.of_nat d) -> exec_redir Impl objs x r = ROk x' ->
     length (fs_T x) <= d -> length (fs_T x') = S d.
 Proof.
-  intros objs x r d x' Hd H Hl. destruct (exec_redir_table _ _ _ _ _ Hd H) as [HL _]. lia.
+  intros objs x r d x' Hd H Hl. destruct (exec_redir_table _ _ _ _ _ H) as (d' & Hd' & HL & _).
+  rewrite Hd in Hd'. assert (d' = d) by (inversion Hd'; lia). subst. lia.
 Qed.
 
 (* ---------------------------------------------------------------- files *)
@@ -285,6 +282,7 @@ Qed.
 Definition content (s : st) (p : nat) : bytes :=
   match fs_get (s_fs s) p with Some c => c | None => [] end.
 
+Opaque write_at.
 (* > truncates, >> appends, <> overwrites in place from offset 0 without
    truncating, < gives a descriptor that cannot be written *)
 Lemma truncate_vs_append_vs_rdwr :
@@ -317,7 +315,7 @@ Proof.
     unfold write_bytes. cbn [s_ofds s_fs set_led set_ofds set_fs].
     rewrite nth_error_app2, Nat.sub_diag by lia. cbn.
     rewrite fs_get_set_same. eexists; split; [reflexivity|].
-    cbn [s_fs set_ofds set_fs]. rewrite fs_get_set_same. reflexivity.
+    cbn [s_fs set_ofds set_fs]. rewrite fs_get_set_same. change (length (@nil N)) with 0. rewrite write_at_0, skipn_nil, app_nil_r. reflexivity.
   - (* append *)
     assert (H' : i = length (s_ofds s) /\
                  s1 = set_led (set_ofds (set_fs s (fs_set (s_fs s) p (content s p)))
@@ -340,4 +338,35 @@ Proof.
     rewrite nth_error_app2, Nat.sub_diag by lia. cbn.
     rewrite fs_get_set_same. eexists; split; [reflexivity|].
     cbn [s_fs set_ofds set_fs]. rewrite fs_get_set_same. rewrite write_at_0. reflexivity.
+Qed.
+Transparent write_at.
+
+(* ---------------------------------------------------------------- the oracle *)
+(* The property on observables, as a proposition: whenever the reference
+   semantics specifies the program, the observation shows no crash, an
+   exception exactly when the reference raises one, the same file contents,
+   per-port byte and value outputs and pipe contents, and no descriptor left. *)
+Definition Spec_C42 (fs0 : list (option bytes)) (env : list ospec) (extra : list (option nat))
+    (p : prog) (o : obs) : Prop :=
+  forall e, observe Spec fs0 env extra p = Some e ->
+    ob_crash o = false
+    /\ (ob_exc o = None <-> ob_exc e = None)
+    /\ fs_eqb (ob_fs o) (ob_fs e) = true
+    /\ ob_bs o = ob_bs e /\ ob_vs o = ob_vs e /\ ob_pipes o = ob_pipes e
+    /\ ob_fd_delta o = 0%Z.
+
+Lemma check_C42_sound :
+  forall fs0 env extra p o, check_C42 fs0 env extra p o = true -> Spec_C42 fs0 env extra p o.
+Proof.
+  intros fs0 env extra p o H e He. unfold check_C42 in H. rewrite He in H.
+  repeat (apply andb_true_iff in H; destruct H as [H ?]).
+  repeat split.
+  - destruct (ob_crash o); simpl in *; congruence.
+  - intros E. rewrite E in *. destruct (ob_exc e); simpl in *; congruence.
+  - intros E. rewrite E in *. destruct (ob_exc o); simpl in *; congruence.
+  - assumption.
+  - apply (list_eqb_spec bytes_eqb bytes_eqb_spec); assumption.
+  - apply (list_eqb_spec _ (list_eqb_spec bytes_eqb bytes_eqb_spec)); assumption.
+  - apply (list_eqb_spec bytes_eqb bytes_eqb_spec); assumption.
+  - apply Z.eqb_eq; assumption.
 Qed.
